@@ -33,7 +33,7 @@ static int body_line[MAXBODY];          /* index into prog of the Body definitio
 
 /* ---- registrations ---- */
 #define MAXI 4096
-struct item { int kind, id, p, bid, fd, ev, ret, signo, live, reg; qb_loop_timer_handle th; qb_loop_signal_handle sh; };
+struct item { int kind, id, p, bid, fd, ev, ret, signo, live, reg, fnv; qb_loop_timer_handle th; qb_loop_signal_handle sh; };
 static struct item items[MAXI];
 static int nitems;
 static int fresh_id = 1000;
@@ -128,15 +128,19 @@ static void run_body(int bid, struct item *self)
 }
 static void job_cb(void *data) { struct item *it = data; it->live = 0; vt_ev("CbJob"); vt_i(it->id); vt_res(); vt_end(); run_body(it->bid, it); }
 static void timer_cb(void *data) { struct item *it = data; it->live = 0; vt_ev("CbTimer"); vt_i(it->id); vt_res(); vt_end(); run_body(it->bid, it); }
-static int32_t fd_cb(int32_t fd, int32_t revents, void *data)
+/* two descriptor callbacks that differ only in their name: qb_loop_poll_mod switches a registration from one to the
+ * other, and the event says which of them the loop called */
+static int32_t fd_cb_which(int which, int32_t revents, void *data)
 {
 	struct item *it = data;
-	vt_ev("CbFd"); vt_i(it->id); vt_i(revents); vt_res(); vt_end();
+	vt_ev("CbFd"); vt_i(it->id); vt_i(revents); vt_i(which); vt_res(); vt_end();
 	run_body(it->bid, it);
 	vt_ev("CbFdRet"); vt_i(it->id); vt_res(); vt_end();
 	if (it->ret < 0) it->reg = 0;
 	return it->ret;
 }
+static int32_t fd_cb(int32_t fd, int32_t revents, void *data) { return fd_cb_which(0, revents, data); }
+static int32_t fd_cb1(int32_t fd, int32_t revents, void *data) { return fd_cb_which(1, revents, data); }
 static int32_t sig_cb(int32_t signo, void *data) { struct item *it = data; vt_ev("CbSig"); vt_i(it->id); vt_res(); vt_end(); run_body(it->bid, it); return 0; }
 
 static int idarg(struct vt_line *L, int t, struct item *self) {
@@ -197,8 +201,11 @@ static void exec_op(struct vt_line *L, int t0, int n, struct item *self, int sel
 		struct item *it = NULL;
 		for (int i = nitems - 1; i >= 0; i--) if (items[i].kind == K_FD && items[i].fd == fd && items[i].reg) { it = &items[i]; break; }
 		if (!it) return;
-		int rc = qb_loop_poll_mod(lp, p, fd, ev, it, fd_cb);
-		vt_ev(op); vt_i(fd); vt_i(p); vt_i(ev); vt_res(); vt_i(rc); vt_end();
+		int nf = !it->fnv;
+		int rc = qb_loop_poll_mod(lp, p, fd, ev, it, nf ? fd_cb1 : fd_cb);
+		it->fnv = nf;      /* (the library stores the new callback, data and priority before it asks the kernel: a refusal
+		                    * there -- a descriptor closed meanwhile -- leaves them replaced, like the priority) */
+		vt_ev(op); vt_i(fd); vt_i(p); vt_i(ev); vt_i(nf); vt_res(); vt_i(rc); vt_end();
 	} else if (!strcmp(op, "FdClose")) {
 		int fd = A(1);
 		/* closing a descriptor that is still registered (without deleting it or returning a negative value from
